@@ -28,6 +28,7 @@ var verifFuzzProgs = []verifTemplate{
 	{"none-literal", "fn main() {\n  let n: ?int = none;\n  println(n);\n}\n"},
 	{"loop-break", "fn main() {\n  let n = 0;\n  loop {\n    n += 1;\n    if n > K { break; }\n  }\n  println(n);\n}\n"},
 	{"loop-continue", "fn main() {\n  for i in 0..3 {\n    if i == A { continue; }\n    println(i);\n  }\n}\n"},
+	{"mul-div-chains", "fn main() {\n  println(A / 2 * K, A % 3 * K, A * K / 2, 7 / 2 * 3);\n  let q = A / 3 * 2;\n  println(q);\n}\n"},
 	{"null-literal", "fn f() -> null { return null; }\nfn main() {\n  f();\n  println(1);\n}\n"},
 }
 
